@@ -200,6 +200,13 @@ func judge(sc scenario, res *result) (string, string) {
 		for i, t := range want {
 			if seen[t] == 0 {
 				cls = "lost-event-gap"
+				// the subscriber got a proper non-empty suffix of what it should get: the oldest events were
+				// evicted from the three sealed buffers while their flush had not reached the disk yet
+				for k := 1; k < len(want); k++ {
+					if len(sc.Events) >= 5 && fmt.Sprint(got) == fmt.Sprint(want[k:]) {
+						cls = "lost-event-gap:oldest-events-missed-after-four-rotations-with-flush-pending"
+					}
+				}
 				// a correct strict prefix was delivered: the subscriber is merely behind at quiescence
 				if len(got) == i && fmt.Sprint(got) == fmt.Sprint(want[:i]) {
 					cls = "stalled-at-quiescence"
@@ -219,6 +226,30 @@ func judge(sc scenario, res *result) (string, string) {
 					}
 					if inSealed && res.pos == 0 {
 						cls = "stalled-at-quiescence:undelivered-only-in-sealed-buffers-while-current-buffer-empty"
+					} else if res.pos == 0 {
+						// same read-path answer ("nothing new" because the current buffer is empty), but some of the
+						// undelivered events have already left the sealed buffers and sit in the flush queue only
+						oldest := int64(1) << 62
+						for _, sb := range res.sealed {
+							if sb.Size > 0 && sb.StartNs < oldest {
+								oldest = sb.StartNs
+							}
+						}
+						all := true
+						for _, u := range want[i:] {
+							found := u < oldest
+							for _, sb := range res.sealed {
+								if sb.Size > 0 && sb.StartNs <= u && u <= sb.StopNs {
+									found = true
+								}
+							}
+							if !found {
+								all = false
+							}
+						}
+						if all {
+							cls = "stalled-at-quiescence:undelivered-in-sealed-buffers-or-older-while-current-buffer-empty"
+						}
 					}
 				}
 				break
@@ -278,11 +309,14 @@ func run(r *mc.Run) {
 		{{1, 50}, {90, 50}, {91, 50}},
 		{{1, 50}, {2, 50}, {3, 50}, {4, 50}},
 		{{1, 50}, {2, 5}, {90, 50}, {200, 5}},
+		// five appends a minute apart: four rotations by time, so that a sealed buffer's array is recycled
+		// while its flush may still be queued
+		{{1, 50}, {70, 50}, {140, 50}, {210, 50}, {280, 50}},
 	}
 	if r.Thorough() {
 		patterns = append(patterns,
 			[]ev{{1, 50}, {2, 50}, {3, 50}, {4, 50}, {5, 50}},
-			[]ev{{1, 50}, {70, 50}, {140, 50}, {210, 50}, {280, 50}},
+			[]ev{{1, 50}, {70, 50}, {140, 50}, {210, 50}, {280, 50}, {350, 50}},
 			[]ev{{1, 120}, {2, 120}, {3, 120}, {4, 120}, {5, 120}},
 		)
 	}
